@@ -47,6 +47,7 @@ type Tx struct {
 	Sigs     []string `json:"sigs,omitempty"`     // signers "<label>[!idx|!status|!type|!from]" or "junk"
 	MsStatus int      `json:"msstatus,omitempty"` // TxStatus inside the multi-signature proof
 	Notice   string   `json:"notice,omitempty"`   // ibtp.Extra: "" | BF | RB | OK | junk (a BxhProof carrying that status)
+	Mal      string   `json:"mal,omitempty"`      // structure-level mutation of the IBTP: src | dst | type | group (k becomes "ibtpmal") | payload | nopayload
 	// rule scenarios: the proof is a Fabric artifact (endorsed broker response) "signer[!idx|!cc|!func|!sig]", e.g. "c0", "c1", "c0!idx"
 	Art      string `json:"art,omitempty"`
 	Promoted bool   `json:"promoted,omitempty"` // surface calls: method is promoted / not an entry point
@@ -359,6 +360,24 @@ func (r *runner) build(n *core.Node, t Tx) (pb.Transaction, map[string]interface
 			proof = b
 			art = map[string]interface{}{"kind": "fabric", "idx": int(fa.Index), "cc": fa.Chaincode, "signer": who, "sigok": !fa.BadSig, "content": fa.Func == "set"}
 		}
+		if t.Mal != "" {
+			bad := []string{"", ":", "chainA", "1356:chainA", "1356:chainA:svc1:x", "::", "1356::svc1", "9999:chainX:", "1356:chainA:svc1\x00", strings.Repeat("a", 5000) + ":b:c", "１３５６:chainA:svc1"}
+			pick := bad[(int(t.Idx)+len(t.Src)+len(t.Mal))%len(bad)]
+			switch t.Mal {
+			case "src":
+				ibtp.From = pick
+			case "dst":
+				ibtp.To = pick
+			case "type":
+				ibtp.Type = pb.IBTP_Type(7 + int(t.Idx)%3)
+			case "payload":
+				ibtp.Payload = []byte{0xff, 0x01, 0x02}
+			case "nopayload":
+				ibtp.Payload = nil
+			case "group":
+				ibtp.Group = &pb.StringUint64Map{Keys: []string{dst, "x"}, Vals: []uint64{1}}
+			}
+		}
 		var tx pb.Transaction
 		switch t.Proof {
 		case "bad":
@@ -375,7 +394,11 @@ func (r *runner) build(n *core.Node, t Tx) (pb.Transaction, map[string]interface
 		}
 		srcLocal := strings.HasPrefix(src, n.BxhID()+":")
 		dstLocal := strings.HasPrefix(dst, n.BxhID()+":")
-		d := map[string]interface{}{"k": "ibtp", "from": from.Addr.String(), "to": tx.GetTo().String(), "cls": "ibtp", "badsig": false, "m": "",
+		kk := "ibtp"
+		if t.Mal != "" && t.Mal != "payload" && t.Mal != "nopayload" { // (the payload is opaque to the hub: such an IBTP is an ordinary one)
+			kk = "ibtpmal" // judged by the generic block formulas only (C08 alive, C07 no effect when failed, C02 delivery)
+		}
+		d := map[string]interface{}{"k": kk, "from": from.Addr.String(), "to": tx.GetTo().String(), "cls": "ibtp", "badsig": false, "m": t.Mal,
 			"amtKind": "none", "amtNum": 0, "amt": "",
 			"src": src, "dst": dst, "idx": int(t.Idx), "typ": t.Typ, "T": tOf(t.T), "proofok": t.Proof == "" || t.Proof == "ok", "id": id,
 			"gid": gid, "gcount": len(t.GDst), "srcLocal": srcLocal, "dstLocal": dstLocal,
@@ -1224,6 +1247,9 @@ func genPlan(rng *rand.Rand, name string, mode string) *Plan {
 						nextR[pair]++
 					}
 					txs = append(txs, Tx{K: "ibtp", Src: s, Dst: d, Idx: idx, Typ: typ, Proof: proof, From: from})
+				} else if rng.Intn(3) == 0 {
+					mal := []string{"src", "dst", "type", "payload", "nopayload", "group"}[rng.Intn(6)]
+					txs = append(txs, Tx{K: "ibtp", Src: s, Dst: d, Idx: next[pair] + uint64(rng.Intn(2)), Typ: []string{"REQ", "REQ", "OK"}[rng.Intn(3)], T: timeouts[rng.Intn(len(timeouts))], Proof: "ok", From: from, Mal: mal})
 				} else if rng.Intn(3) == 0 {
 					m := []string{"transfer", "create", "store", "store", "lowgas"}[rng.Intn(5)]
 					txs = append(txs, Tx{K: "eth", From: "e1", M: m})
